@@ -149,6 +149,8 @@ static std::string nameAt(const RefTable& m, int i) { return (i >= 0 && i < m.nc
 static int lastIdx(const RefTable& m) { return m.ncol() - 1; }
 static VectorDouble seqTab(int n, double base) { VectorDouble t(n); for (int i = 0; i < n; i++) t[i] = base + i; return t; }
 
+static int OBS = -1;  // index of the observe step
+static void observe_all(const Db* db, const RefTable& m0);
 static void build_ops()
 {
   auto add = [](const std::string& n, const std::string& k, bool s, std::function<void(Step&)> f) { OPS.push_back({n, k, s, f}); };
@@ -376,6 +378,8 @@ static void build_ops()
   });
   // ---- copy
   add("clone", "clone", false, [](Step& s) { Db* c = s.db->clone(); delete s.db; s.db = c; });
+  OBS = (int)OPS.size();
+  add("observeAll(every reader called once)", "observeAll", false, [](Step& s) { observe_all(s.db, s.m); });
   add("copy-assign", "assign", false, [](Step& s) {
     if (s.m.grid) { DbGrid* c = new DbGrid(); *c = *dynamic_cast<DbGrid*>(s.db); delete s.db; s.db = c; }
     else { Db* c = new Db(); *c = *s.db; delete s.db; s.db = c; }
@@ -620,6 +624,45 @@ static void build_ops2()
   add("deleteColumnsByUIDRange(1,2)", "deleteColumnsByUIDRange", true, [](Step& s) { s.db->deleteColumnsByUIDRange(1, 2); s.m.delUid(2); s.m.delUid(1); });
 }
 
+
+// ------------------------------------------------------------------------------------------------------------
+// "observe" step: calls every public reader once, mid-history, so that any reader-side cache / lazily built index /
+// memoised rank is primed BEFORE the next mutation. It does not change the table (the model is untouched); the
+// canonical key carries an "observed since the last mutation" bit so that a primed state is not pruned as already seen.
+static std::string judge(const Db* db, RefTable& m, std::string& why, bool deep);
+static std::string judge_accessors(const Db* db, RefTable& m, std::string& why);
+static void observe_all(const Db* db, const RefTable& m0)
+{
+  RefTable m = m0;   // the verdicts of this mid-history pass are ignored: the same state is judged as the end of its own history
+  std::string why;
+  if (db->getColumnNumber() == m.ncol() && db->getSampleNumber(false) == m.nech)
+  {
+    std::string c = judge(db, m, why, true);
+    if (c.empty() && !m.gap) (void)judge_accessors(db, m, why);
+  }
+  // readers that are not part of the clauses
+  int nech = db->getSampleNumber(false), ncol = db->getColumnNumber();
+  (void)db->getSampleNumber(true);
+  (void)db->getRanksActive();
+  (void)db->getSelections();
+  (void)db->getActiveArray();
+  for (int e = 0; e < nech; e++) { (void)db->isActive(e); (void)db->getSelection(e); (void)db->isActiveAndDefined(e, 0); (void)db->getWeight(e); (void)db->getSampleCoordinates(e); for (int d = 0; d < db->getNDim(); d++) (void)db->getCoordinate(e, d); }
+  (void)db->getNames(VectorString{"*"}); (void)db->getName("*"); (void)db->getAllNames(true);
+  (void)db->getLocators();
+  for (int i = 0; i < ncol; i++)
+  {
+    String n = db->getNameByColIdx(i);
+    (void)db->getColumn(n, true, true); (void)db->getColIdx(n); (void)db->getUID(n);
+    if (nech > 0) { (void)db->getMinimum(n); (void)db->getMaximum(n); (void)db->getMean(n, true); (void)db->getVariance(n); (void)db->getActiveAndDefinedNumber(n); }
+  }
+  for (int T = 0; T < Db::getNEloc(); T++)
+    for (int k = 0; k < db->getLocNumber(eloc(T)); k++) { (void)db->getColIdxByLocator(eloc(T), k); (void)db->getColumnByLocator(eloc(T), k, true, true); }
+  if (nech > 0 && db->getNDim() > 0) { (void)db->getExtremas(true); (void)db->getCenters(); (void)db->getCoorMinimum(); }  // getAllCoordinatesMat: judged in the forked part (it overflows its matrix today)
+  (void)db->getNumberActiveAndDefined(0);
+  (void)db->getSampleRanks();
+  (void)db->toString();
+}
+
 // ------------------------------------------------------------------------------------------------------------
 // start states
 static Db* make_start(int which, RefTable& m)
@@ -636,6 +679,14 @@ static Db* make_start(int which, RefTable& m)
     db = make_db(cols, names, locs, which == 2);
     if (which == 2) { cols.insert(cols.begin(), {1., 2.}); names.insert(names.begin(), "rank"); locs.insert(locs.begin(), ""); }
   }
+  else if (which == 4)
+  {
+    // a selection stored in the middle: a role-less column (rank) before it, columns after it whose cells differ from it
+    cols = {{1., 2., 3.}, {0.5, 1.5, 2.5}, {1., 0., 1.}, {10.25, 11.25, 12.25}, {0., 7., 0.}};
+    names = {"rank", "x1", "sel", "z1", "w"};
+    locs = {"", "x1", "sel", "z1", ""};
+    db = make_db(cols, names, locs, false);
+  }
   else
   {
     db = DbGrid::create({2, 2}, {1., 1.}, {0., 0.}, VectorDouble(), ELoadBy::COLUMN, {10.25, 11.25, 12.25, 13.25}, {"z1"}, {"z1"}, true, true);
@@ -650,7 +701,7 @@ static Db* make_start(int which, RefTable& m)
     MCol c; c.uid = m.nuid++; c.name = names[i]; c.v = cols[i]; c.unspec.assign(c.v.size(), 0);
     m.cols.push_back(c);
     if (locs[i].empty()) continue;
-    m.roles[locs[i][0] == 'x' ? L_X : L_Z].push_back(c.uid);
+    m.roles[locs[i][0] == 'x' ? L_X : locs[i][0] == 's' ? L_SEL : L_Z].push_back(c.uid);
   }
   return db;
 }
@@ -661,6 +712,9 @@ static uint64_t state_key(const Db* db)
   h.i(db->_ncol).i(db->_nech).vd(db->_array).vi(db->_uidcol).u(db->_colNames.size());
   for (auto& n : db->_colNames) h.s(n);
   for (auto& p : db->_p) h.vi(p._r);
+  // every `mutable` member reachable from a Db / DbGrid (today: the scratch vectors of Grid)
+  const DbGrid* g = dynamic_cast<const DbGrid*>(db);
+  if (g != nullptr) h.vi(g->_grid._iwork0).vd(g->_grid._work1).vd(g->_grid._work2);
   return h.h;
 }
 
@@ -1027,13 +1081,13 @@ static int NCORE = 0;  // ops [0,NCORE) = first half of the alphabet (build_ops)
 // coreprefix > 0: the first 'coreprefix' positions of a history are restricted to the first half of the alphabet
 static void explore(Ctx& C, int start, int depth, int coreprefix = 0)
 {
-  const char* startName[] = {"empty Db", "Db 2 samples x (x1,x2,z1)", "Db 2 samples x (rank,x1,x2,z1)", "DbGrid 2x2 (rank,x1,x2,z1)"};
+  const char* startName[] = {"empty Db", "Db 2 samples x (x1,x2,z1)", "Db 2 samples x (rank,x1,x2,z1)", "DbGrid 2x2 (rank,x1,x2,z1)", "Db 3 samples x (rank,x1,sel[SEL],z1,w)"};
   bfs(C, (int)OPS.size(), depth, [&](const History& h) -> StepResult {
     for (size_t i = 0; i < h.size() && (int)i < coreprefix; i++)
-      if (h[i] >= NCORE) { StepResult r0; r0.enabled = false; r0.expand = false; return r0; }
+      if (h[i] >= NCORE && h[i] != OBS) { StepResult r0; r0.enabled = false; r0.expand = false; return r0; }
     RefTable m;
     Db* db = make_start(start, m);
-    bool structural = false;
+    bool structural = false, observed = false;
     std::string bad, tag;
     for (size_t i = 0; i < h.size(); i++)
     {
@@ -1042,6 +1096,7 @@ static void explore(Ctx& C, int start, int depth, int coreprefix = 0)
       OPS[h[i]].run(s);
       if (s.disabled) { StepResult r0; r0.enabled = false; r0.expand = false; delete db; return r0; }
       if (OPS[h[i]].structural) structural = true;
+      observed = (h[i] == OBS);  // observed since the last mutation
       if (i + 1 == h.size()) { bad = s.bad; tag = s.tag; }
       // adopt names after every step, and the cells that the step left unspecified (so that later steps of the
       // model which READ cells - selections, copies, updates - work on the adopted values)
@@ -1052,7 +1107,7 @@ static void explore(Ctx& C, int start, int depth, int coreprefix = 0)
             if (m.cols[c].unspec[e]) { m.cols[c].v[e] = db->getValueByColIdx(e, c); m.cols[c].unspec[e] = 0; }
     }
     StepResult r;
-    r.key = state_key(db);
+    r.key = Hash().u(state_key(db)).u(observed).h;
     static std::unordered_set<uint64_t> apiJudged;
     uint64_t jk = Hash().s(C.cur_part).u(r.key).u(m.gap).h;
     bool deep = !apiJudged.count(jk);
@@ -1127,6 +1182,36 @@ VF_PART(outofrange)
     {"setLocatorByColIdx(99,Z,0)", [](Db* d) { d->setLocatorByColIdx(99, ELoc::Z, 0); }},
     {"getColumnByColIdx(99)+getValuesByColIdx({0},{99})+getItem({99},name)", [](Db* d) { (void)d->getColumnByColIdx(99); (void)d->getValuesByColIdx({0}, {99}); (void)d->getItem(VectorInt{99}, d->getNameByColIdx(0)); }},
   };
+  // a reader which cannot be called in-process today (heap overflow): judged in a forked child against the model
+  if (owns_part(C) || !C.only_case.empty())
+  {
+    bool doit = C.only_case.empty() || C.only_case == "getAllCoordinatesMat";
+    if (doit)
+    {
+      C.cur_case = "getAllCoordinatesMat";
+      ChildResult cr = run_child([&](int wfd) {
+        RefTable m;
+        Db* db = make_start(4, m);   // selection {1,0,1}: samples 0 and 2 are active, one coordinate x1
+        MatrixRectangular mat = db->getAllCoordinatesMat();
+        std::ostringstream o;
+        bool ok = mat.getNRows() == 2 && mat.getNCols() == 1;
+        if (ok) ok = same(mat.getValue(0, 0), 0.5) && same(mat.getValue(1, 0), 2.5);
+        o << (ok ? "OK" : "BAD") << " " << mat.getNRows() << "x" << mat.getNCols();
+        if (mat.getNRows() == 2 && mat.getNCols() == 1) o << " rows=(" << mat.getValue(0, 0) << "," << mat.getValue(1, 0) << ")";
+        child_write(wfd, o.str() + "\n");
+        delete db;
+        return 0;
+      }, 20., 0);
+      C.eval(); C.nontrivial(Hash().s("getAllCoordinatesMat").h);
+      if (!cr.clean() || cr.code != 0 || cr.data.rfind("OK", 0) != 0)
+      {
+        C.violation("accessor-getAllCoordinatesMat", "start=Db 3 samples x (rank,x1,sel[SEL]={1,0,1},z1,w): getAllCoordinatesMat() must be the 2x1 matrix (0.5, 2.5) of the active samples; got: " + (cr.data.empty() ? cr.describe() : cr.data.substr(0, 80)) + " [" + cr.describe() + "] (row index = absolute sample rank: write outside the matrix)", "getAllCoordinatesMat");
+        C.outcome("getAllCoordinatesMat-wrong");
+      }
+      else C.outcome("getAllCoordinatesMat-ok");
+    }
+    if (!C.only_case.empty() && C.only_case == "getAllCoordinatesMat") return;
+  }
   Space sp;
   sp.axis("call", (int)calls.size()).axis("start", 2);
   for_each_case(C, sp, [&](uint64_t id, const std::vector<int>& idx) {
@@ -1160,8 +1245,10 @@ VF_PART(db_rank) { explore(C, 2, C.thorough() ? 3 : 2); }
 VF_PART(db_empty) { explore(C, 0, 3); }
 VF_PART(db_empty_deep) { if (C.thorough()) explore(C, 0, 4, 3); }
 VF_PART(grid) { explore(C, 3, C.thorough() ? 3 : 2); }
+VF_PART(db_sel) { explore(C, 4, 3); }
 
 int main(int argc, char** argv)
 {
+  if (getenv("C07_LISTOPS")) { build_ops(); NCORE = (int)OPS.size(); build_ops2(); for (size_t i = 0; i < OPS.size(); i++) printf("%zu %s\n", i, OPS[i].name.c_str()); return 0; }
   return run_main(argc, argv, [](Ctx&) { silence(); build_ops(); NCORE = (int)OPS.size(); build_ops2(); }, [](Ctx& C) { write_states(C); });
 }
